@@ -88,6 +88,7 @@ var c14Faults = []c14Fault{
 	{"w", "failed Validate()", 13, false, nil, ""},
 	{"n", "failed tag validator (required)", 0, false, nil, ""},
 	{"n", "required setting absent", "ABSENT", false, nil, ""},
+	{"n", "required setting inside a section that is null", "SECTION-NULL", false, nil, ""},
 	{"s", "unresolvable reference", "${does.not.exist}", true, nil, ""},
 	{"i", "unresolvable reference in a splice", "1${nope}", true, nil, ""},
 	{"s", "cyclic reference", "SELF", true, nil, ""},
@@ -114,11 +115,48 @@ const (
 	buildRemovedInFront
 	buildReattached
 	buildSectionMergedElsewhere
+	buildDottedKeys
 	numC14Builds
 )
 
 func (b c14Build) String() string {
-	return [...]string{"built directly", "merged from two halves", "faulty list element moved by a prepend merge", "faulty list element moved down by a Remove in front of it", "object holding the fault taken with Child and put back with SetChild (no MetaData option)", "the section holding the fault was merged (as a live *Config) into two other configs before"}[b]
+	return [...]string{"built directly", "merged from two halves", "faulty list element moved by a prepend merge", "faulty list element moved down by a Remove in front of it", "object holding the fault taken with Child and put back with SetChild (no MetaData option)", "the section holding the fault was merged (as a live *Config) into two other configs before", "every setting written as one dotted key (objects and lists are created from the keys)"}[b]
+}
+
+// c14Flatten spells every setting as one dotted key of the top-level map.
+func c14Flatten(data M) M {
+	out := M{}
+	var flat func(prefix string, v interface{})
+	flat = func(prefix string, v interface{}) {
+		join := func(s string) string {
+			if prefix == "" {
+				return s
+			}
+			return prefix + "." + s
+		}
+		switch x := v.(type) {
+		case M:
+			if len(x) == 0 {
+				out[prefix] = x
+				return
+			}
+			for k, e := range x {
+				flat(join(k), e)
+			}
+		case L:
+			if len(x) == 0 {
+				out[prefix] = x
+				return
+			}
+			for i, e := range x {
+				flat(join(fmt.Sprint(i)), e)
+			}
+		default:
+			out[prefix] = v
+		}
+	}
+	flat("", data)
+	return out
 }
 
 func c14Config(loc string, f *c14Fault, selfPath string) (M, string) {
@@ -159,6 +197,11 @@ func c14Config(loc string, f *c14Fault, selfPath string) (M, string) {
 		obj[f.Leaf] = val
 		if val == "ABSENT" {
 			delete(obj, f.Leaf)
+		}
+		if val == "SECTION-NULL" {
+			// (only the struct held by value has to exist when its section is null)
+			delete(obj, f.Leaf)
+			full["top"] = nil
 		}
 		for k, v := range f.Extra {
 			full[k] = v
@@ -224,6 +267,9 @@ func c14Space() *core.Space {
 			if (build == buildPrependMoved || build == buildAppendMoved || build == buildRemovedInFront) && !isList {
 				return core.Result{Skipped: true}
 			}
+			if f.Val == "SECTION-NULL" && (loc != "top." || build != buildDirect && build != buildMergedHalves && build != buildDottedKeys) {
+				return core.Result{Skipped: true}
+			}
 			if build == buildReattached && loc == "" {
 				if _, isM := f.Val.(M); !isM {
 					if _, isL := f.Val.(L); !isL {
@@ -247,6 +293,8 @@ func c14Space() *core.Space {
 				switch build {
 				case buildDirect:
 					cfg, src, err = c14LoadCfg(data, load, opts)
+				case buildDottedKeys:
+					cfg, src, err = c14LoadCfg(c14Flatten(data), load, opts)
 				case buildMergedHalves:
 					// first half: everything but the faulted container; second half: the rest
 					h1, h2 := M{}, M{}
@@ -386,7 +434,7 @@ func c14Judge(err error, path, src string, allPaths []string, f c14Fault, entry 
 			return core.Fail(entry, "NAMES-ANOTHER-SETTING "+f.Kind, fmt.Sprintf("fault at '%s', but the message names '%s': %s", path, p, msg))
 		}
 	}
-	if f.Val == "ABSENT" {
+	if f.Val == "ABSENT" || f.Val == "SECTION-NULL" {
 		src = "" // no value has been loaded for an absent setting: naming a source is not demanded
 	}
 	if src != "" && !strings.Contains(msg, "source:'"+src+"'") {
